@@ -12,6 +12,9 @@ var registry = map[string]func(tier string) *evid.Report{
 }
 
 func Run(id, tier string) int {
+	if cr, ok := customRunners[id]; ok {
+		return cr(tier)
+	}
 	f, ok := registry[id]
 	if !ok {
 		fmt.Fprintln(os.Stderr, "unknown property", id)
